@@ -46,6 +46,9 @@ func (v *visitor) GetError() error {
 }
 
 func (v *visitor) SetError(ctx antlr.ParserRuleContext, format string, args ...any) any {
+	if v.error != nil {
+		return nil // 保留最初的错误(真正的原因) 不被外层运算符的错误覆盖
+	}
 	start := ctx.GetStart()
 	stop := ctx.GetStop()
 	line, column := start.GetLine(), start.GetColumn()
@@ -64,6 +67,9 @@ func (v *visitor) SetError(ctx antlr.ParserRuleContext, format string, args ...a
 }
 
 func (v *visitor) SetErrorOnToken(token antlr.Token, format string, args ...any) any {
+	if v.error != nil {
+		return nil // 保留最初的错误(真正的原因) 不被外层运算符的错误覆盖
+	}
 	v.error = errors.Errorf("evaluate code failed at position %v: %w",
 		v.Pos.Add(token.GetLine(), token.GetColumn()),
 		errors.Errorf(format, args...),
